@@ -661,12 +661,15 @@ Examples:
     def dec(f):
         def func(x, *args, **kwds):
             for i,j in mask.items():
-                if isinstance(j, tuple): # value is tuple with f(x) or constant
+                try: x[i] = x[j]
+                except (TypeError, IndexError) as err:
+                  # value is tuple with f(x) or constant (TypeError for a
+                  # list; IndexError for an array, unless is a multi-index)
+                  if not isinstance(j, tuple): # index is out of range
+                    if isinstance(err, TypeError): raise
+                    continue
                   j0,j1 = (j[:2] + (1,))[:2]
                   try: x[i] = j1(x[j0]) if isinstance(j1, _Callable) else j1*x[j0]
-                  except IndexError: pass
-                else:
-                  try: x[i] = x[j]
                   except IndexError: pass
             return f(x, *args, **kwds)
         func.__wrapped__ = f   #XXX: getattr(f, '__wrapped__', f) ?
